@@ -176,7 +176,7 @@ func sectionBC(r *hlib.Run, tc *toolchain, doB, doC bool) {
 	nPub, nSub, size := 28, 3, 16
 	nPkgs := 1
 	if r.Thorough {
-		nPub, nPkgs = 40, 8
+		nPub, nPkgs = 40, 6
 	}
 	for k := 0; k < nPkgs; k++ {
 		p := genPackage(rng.Fork(), nPub, nSub, size, k == 0)
